@@ -1,19 +1,70 @@
 """
 Shared harness for TorConfig (C10, C11): the real TorConfig on the real protocol against the fake
 Tor's configuration store.  A case:
-  {'store': {name: [values]}, 'defaults': {name: [lines]} | None, 'ops': [op, …]}
-  op = ['assign', name, pyvalue] | ['lop', name, opname, args…] | ['save'] | ['ack', ok] | ['conf', [[name, [values]], …]]
+  {'options': [[name, type], …] (default OPTIONS), 'store': {name: [values]}, 'defaults': {name: [lines]} | None,
+   'ops': [op, …]}
+  op = ['assign', name, pyvalue] | ['lop', name, opname, args…] | ['save'] | ['ack', ok]
+     | ['conf', [[key-as-written, [values]], …]]
+Types are Tor's (config/names) plus 'PortLines' for the FooPort / FooPortLines / __FooPort triple.
 After every op: SETCONF pairs seen, outcomes of save() Deferreds, needs_save(), and every option read
-(wire-level canonical form).
+(wire-level canonical form; `reads_as` gives the spelling used for the attribute).
 """
+from decimal import Decimal
+
 from harness.common import hexs, unhext
 
 OPTIONS = [('SocksPort', 'LineList'), ('Log', 'LineList'), ('ExitPolicy', 'LineList'), ('NumCPUs', 'Integer'),
            ('CookieAuthentication', 'Boolean'), ('Nickname', 'String'), ('ContactInfo', 'String'), ('MaxCircuitDirtiness', 'TimeInterval')]
-NAMES = [o[0] for o in OPTIONS]
-IDX = {n: i for i, n in enumerate(NAMES)}
-LISTS = [n for n, t in OPTIONS if 'List' in t]
-NUMERIC_DEFAULT = {'NumCPUs': '0', 'CookieAuthentication': '0', 'MaxCircuitDirtiness': '600'}
+LINE_TYPES = ('LineList', 'PortLines')
+COMMA_TYPES = ('CommaList', 'RouterList', 'TimeIntervalCommaList')
+INT_TYPES = ('Integer', 'SignedInteger', 'Port', 'TimeInterval', 'DataSize')
+NUMERIC_TYPES = INT_TYPES + ('Boolean', 'Boolean+Auto', 'Float')
+TYPE_CODES = {'LineList': 'L', 'PortLines': 'P', 'CommaList': 'C', 'RouterList': 'C', 'TimeIntervalCommaList': 'C', 'Boolean': 'B',
+              'Boolean+Auto': 'A', 'Integer': 'I', 'SignedInteger': 'I', 'Port': 'I', 'TimeInterval': 'I', 'DataSize': 'I', 'Float': 'F',
+              'String': 'S', 'Filename': 'S', 'Time': 'S', 'TimeMsecInterval': 'S'}
+NUMERIC_DEFAULT = {'NumCPUs': '0', 'CookieAuthentication': '0', 'MaxCircuitDirtiness': '600', 'AvoidDiskWrites': '0', 'ClientUseIPv6': 'auto',
+                   'BandwidthRate': '1073741824', 'PathBiasNoticeRate': '0.7', 'KeepalivePeriod': '300', 'OwningControllerFD': '-1'}
+
+
+class Table:
+    def __init__(self, case):
+        self.options = [tuple(o) for o in (case.get('options') or OPTIONS)]
+        self.names = [o[0] for o in self.options]
+        self.types = dict(self.options)
+        self.idx = {n: i for i, n in enumerate(self.names)}
+        self.lists = [n for n, t in self.options if t in LINE_TYPES or t in COMMA_TYPES]
+        self.commas = [n for n, t in self.options if t in COMMA_TYPES]
+        self.numeric_default = {n: NUMERIC_DEFAULT.get(n, '0') for n, t in self.options if t in NUMERIC_TYPES}
+
+    def real(self, key):
+        for n in self.names:
+            if n.lower() == key.lower():
+                return n
+        return key
+
+    def config_names(self):
+        """what GETINFO config/names lists"""
+        out = []
+        for n, t in self.options:
+            if t == 'PortLines':
+                out += [(n, 'Dependent'), (n + 'Lines', 'Virtual'), ('__' + n, 'Dependent')]
+            else:
+                out.append((n, t))
+        return out
+
+
+def float_canon(f):
+    d = Decimal(repr(float(f)))
+    if d == 0:
+        return '0e0'
+    sign, digits, exp = d.as_tuple()
+    digits = list(digits)
+    while len(digits) > 1 and digits[-1] == 0:
+        digits.pop()
+        exp += 1
+    while len(digits) > 1 and digits[0] == 0:
+        digits.pop(0)
+    return ('-' if sign else '') + ''.join(map(str, digits)) + 'e' + str(exp)
 
 
 def wire(v):
@@ -24,21 +75,51 @@ def wire(v):
     return str(v)
 
 
-def canon_read(v):
+def wire_typed(t, v):
+    """the text `save()` must send for python value `v` assigned to an option of type `t`"""
+    if t == 'Boolean':
+        return '1' if v else '0'
+    if t == 'Boolean+Auto':
+        return 'auto' if int(v) < 0 else ('1' if int(v) else '0')
     if isinstance(v, list):
-        return ['l', [str(x) for x in v], type(v).__name__.lstrip('_')]
+        return [str(x) for x in v]
+    return str(v)
+
+
+def canon_text(t, text):
+    """a wire text as the typed view shows it"""
+    if t == 'Boolean':
+        return '1' if int(text) else '0'
+    if t == 'Boolean+Auto':
+        return '-1' if (text == 'auto' or int(text) < 0) else ('1' if int(text) else '0')
+    if t in INT_TYPES:
+        return str(int(text))
+    if t == 'Float':
+        return float_canon(text)
+    return text
+
+
+def canon_read(v, t=None):
+    if isinstance(v, list):
+        return ['l', [x if isinstance(x, str) else ('<%s>%s' % (type(x).__name__, x)) for x in v], type(v).__name__.lstrip('_')]
     if isinstance(v, bool):
         return ['s', '1' if v else '0']
-    return ['s', str(v)]
+    if isinstance(v, float):
+        return ['s', float_canon(v)]
+    if isinstance(v, (int, str)):
+        return ['s', str(v)]
+    return ['s', '<%s>%s' % (type(v).__name__, v)]
 
 
 class Impl:
     def __init__(self, case):
         from harness.simtor import SimTor
         from txtorcon import TorConfig
-        self.st = SimTor(options=OPTIONS, store=case['store'], defaults=case.get('defaults') or {},
+        self.tab = Table(case)
+        self.st = SimTor(options=self.tab.config_names(), store=case['store'], defaults=case.get('defaults') or {},
                          support_defaults=case.get('defaults') is not None)
-        self.st.numeric_default = dict(NUMERIC_DEFAULT)
+        self.st.numeric_default = dict(self.tab.numeric_default)
+        self.st.logical_types = dict(self.tab.types)
         self.st.connect()
         self.cfg = TorConfig(self.st.proto)
         assert self.cfg.post_bootstrap.called, 'config bootstrap did not finish'
@@ -49,6 +130,7 @@ class Impl:
         self.st.hold_prefixes.add('SETCONF')
         self.log = []
         self.seen = len(self.st.commands('SETCONF'))
+        self.reads_as = dict(case.get('reads_as') or {})
 
     def snapshot(self):
         from harness.simtor import kv_parse
@@ -62,13 +144,13 @@ class Impl:
         outs += self.log
         self.log = []
         reads = {}
-        for n in NAMES:
+        for n in self.tab.names:
             try:
-                reads[n] = canon_read(getattr(self.cfg, n))
+                reads[n] = canon_read(getattr(self.cfg, self.reads_as.get(n, n)))
             except Exception as e:
                 reads[n] = ['exc', type(e).__name__]
         return {'outs': outs, 'needs': bool(self.cfg.needs_save()), 'reads': reads,
-                'store': {n: list(self.st.store.get(n, [])) for n in NAMES}}
+                'store': {n: list(self.st.store.get(n, [])) for n in self.tab.names}}
 
     def do(self, op):
         k = op[0]
@@ -97,11 +179,12 @@ class Impl:
                 self.st.release('SETCONF', None if op[1] else '552 Unacceptable option value\r\n')
             elif k == 'conf':
                 lines = []
-                for n, vals in op[1]:
+                for key, vals in op[1]:
+                    self.st.store[self.tab.real(key)] = list(vals)       # another controller changed Tor's configuration
                     if not vals:
-                        lines.append(n)
+                        lines.append(key)
                     for v in vals:
-                        lines.append('%s=%s' % (n, v))
+                        lines.append('%s=%s' % (key, v))
                 self.st.send('650-CONF_CHANGED\r\n' + ''.join('650-%s\r\n' % l for l in lines) + '650 OK\r\n')
         except Exception as e:
             self.log.append(['exc', type(e).__name__])
@@ -117,24 +200,31 @@ def run_impl(case):
 
 
 def driver_lines(case):
+    tab = Table(case)
+    IDX = tab.idx
     defaults = case.get('defaults') or {}
     dl = ';'.join('%d:%s' % (IDX[n], '.'.join(hexs(v) for v in vs) or '-') for n, vs in defaults.items() if n in IDX) or '-'
-    lines = ['reset %s %s' % (','.join(str(IDX[n]) for n in LISTS), dl)]
-    for n in NAMES:
+    types = ''.join(TYPE_CODES[tab.types[n]] for n in tab.names)
+    lines = ['reset %s %s' % (types, dl)]
+    for n in tab.names:
         vals = case['store'].get(n, [])
-        if not vals and n in NUMERIC_DEFAULT and n not in LISTS:
-            vals = [NUMERIC_DEFAULT[n]]
-        lines.append('boot %d %s' % (IDX[n], ','.join(hexs(v) for v in vals) or '-'))
+        if not vals and n in tab.numeric_default:
+            vals = [tab.numeric_default[n]]
+        extra = ''
+        if tab.types[n] == 'PortLines':
+            u = case['store'].get('__' + n, [])
+            extra = ' ' + (hexs(u[-1]) if u else '-')
+        lines.append('boot %d %s%s' % (IDX[n], ','.join(hexs(v) for v in vals) or '-', extra))
     marks = [len(lines)]
-    lines += reads_lines()
+    lines += reads_lines(tab)
     for op in case['ops']:
         marks.append(len(lines))
         k = op[0]
         if k == 'assign':
-            w = wire(op[2])
-            lines.append('assign %d %s' % (IDX[op[1]], ('l' + (','.join(hexs(x) for x in w) or '-')) if isinstance(w, list) else 's' + hexs(w)))
+            w = wire_typed(tab.types[tab.real(op[1])], op[2])
+            lines.append('assign %d %s' % (IDX[tab.real(op[1])], ('l' + (','.join(hexs(x) for x in w) or '-')) if isinstance(w, list) else 's' + hexs(w)))
         elif k == 'lop':
-            n = IDX[op[1]]
+            n = IDX[tab.real(op[1])]
             name = op[2]
             if name == 'append':
                 lines.append('lop %d append %s' % (n, hexs(str(op[3]))))
@@ -153,16 +243,18 @@ def driver_lines(case):
         elif k == 'ack':
             lines.append('ack %d' % (1 if op[1] else 0))
         elif k == 'conf':
-            lines.append('conf ' + (';'.join('%d:%s' % (IDX[n], '.'.join(hexs(v) for v in vals) or '-') for n, vals in op[1]) or '-'))
-        lines += reads_lines()
+            lines.append('conf ' + (';'.join('%d:%s' % (IDX[tab.real(key)], '.'.join(hexs(v) for v in vals) or '-') for key, vals in op[1]) or '-'))
+        lines += reads_lines(tab)
     return lines, marks
 
 
-def reads_lines():
-    return ['needs'] + ['read %d' % IDX[n] for n in NAMES]
+def reads_lines(tab):
+    return ['needs'] + ['read %d' % tab.idx[n] for n in tab.names]
 
 
 def parse_model(outs, marks, case):
+    tab = Table(case)
+    NAMES = tab.names
     trace = []
     bounds = marks + [len(outs)]
     for i in range(len(marks)):
